@@ -412,6 +412,27 @@ func Gen(r *rand.Rand, o GenOpts) *World {
 		}
 		w.Workloads = append(w.Workloads, wl)
 	}
+	if len(w.Workloads) > 0 && len(w.Workloads) <= o.MaxWl && r.Intn(4) == 0 {
+		// the same application deployed in a second namespace: same workload name, kind, labels and ports
+		base := w.Workloads[r.Intn(len(w.Workloads))]
+		ns := pick(r, g.nsNames())
+		free := ns != base.NS
+		for _, x := range w.Workloads {
+			if x.NS == ns && x.Name == base.Name {
+				free = false
+			}
+		}
+		if free {
+			twin := base
+			twin.NS = ns
+			twin.Labels = Labels{}
+			for k, v := range base.Labels {
+				twin.Labels[k] = v
+			}
+			twin.Ports = append([]CPort{}, base.Ports...)
+			w.Workloads = append(w.Workloads, twin)
+		}
+	}
 	if o.Collide && len(w.Workloads) > 0 {
 		base := w.Workloads[r.Intn(len(w.Workloads))]
 		if base.Expr == "controller" {
